@@ -601,6 +601,7 @@ func checkC13(c *Check, p *Program) {
 		}
 		if after != nil {
 			checkBusyDecode(c, p, "C13.P3")
+			checkNoLockCopies(c, p, "C13.P4", "knx", "Router")
 			checkBusyWait(c, p, a, after)
 		}
 	}
@@ -1169,6 +1170,7 @@ func checkC14(c *Check, p *Program) {
 			c.Fail("C14.Q4", ln+" resend goroutine", p.Pos(a.lostH.Pos()), "not found")
 		}
 	}
+	checkNoLockCopies(c, p, "C14.Q5", "knx", "Router")
 	// the count the handler is given is the one the router announced: octets 2..3 of the indication (behind the
 	// length octet and the status octet), decoded into RoutingLost.Count
 	if un := p.Method("knx/knxnet", "RoutingLost", "Unpack"); un != nil {
